@@ -34,7 +34,8 @@ TRUSTED_COMMON = [
 
 class Task:
     def __init__(self, prop, name, fn, kind, tier, params, budget_s, functions, scope, canary, max_paths, note,
-                 shard=None, vc_timeout_s=30, exact_feas_ms=100):
+                 shard=None, vc_timeout_s=30, exact_feas_ms=100, leak_ok=False):
+        self.leak_ok = leak_ok      # a ProxyLeak makes this task inapplicable (a bounded sibling covers it) instead of a checker error
         self.shard = shard
         self.vc_timeout_s = vc_timeout_s
         self.exact_feas_ms = exact_feas_ms
@@ -51,7 +52,7 @@ REGISTRY: dict[str, list[Task]] = {}
 
 def contract(prop, name=None, kind="sym", tier="quick", params=None, budget_s=300, functions=None,
              scope="unbounded", canary=False, max_paths=None, note="", shards=1, shard_depth=6,
-             vc_timeout_s=30, exact_feas_ms=100):
+             vc_timeout_s=30, exact_feas_ms=100, leak_ok=False):
     """Register a contract program (kind='sym'), a bounded enumeration (kind='enum') or a static analysis
     (kind='static').  `params` may be a list of dicts: one task per dict."""
     def deco(fn):
@@ -64,7 +65,7 @@ def contract(prop, name=None, kind="sym", tier="quick", params=None, budget_s=30
                 REGISTRY.setdefault(prop, []).append(
                     Task(prop, nm + (f"#{j}/{shards}" if shards > 1 else ""), fn, kind, tier, p, budget_s, functions,
                          scope, canary, max_paths, note, shard=(j, shards, shard_depth) if shards > 1 else None,
-                         vc_timeout_s=vc_timeout_s, exact_feas_ms=exact_feas_ms))
+                         vc_timeout_s=vc_timeout_s, exact_feas_ms=exact_feas_ms, leak_ok=leak_ok))
         return fn
     return deco
 
@@ -181,6 +182,7 @@ def run_property(prop, tier="quick", seed=0, level="proof", only=None, jobs=None
     violations, undecided, errors, known_hits = [], [], [], []
     canary_ok, canary_seen = True, False
     samples, functions, bounded_legs, task_rows = [], set(), [], []
+    inapplicable = []
     scope_count = {}
     exhaustive_all = True
 
@@ -189,6 +191,10 @@ def run_property(prop, tier="quick", seed=0, level="proof", only=None, jobs=None
         r = by_name[t.name]
         functions.update(t.functions)
         row = dict(task=t.name, kind=t.kind, scope=t.scope, wall_s=r.get("wall_s"))
+        if t.leak_ok and r.get("errors") and all(e.get("kind") == "ProxyLeak" for e in r["errors"]):
+            inapplicable.append(dict(task=t.name, reason=r["errors"][0].get("msg", "")[:200]))
+            r = dict(r, errors=[], obligations={}, inapplicable=True)
+            by_name[t.name] = r
         if r.get("crashed") or r.get("errors"):
             errors.append(dict(task=t.name, errors=r.get("errors")))
         if t.kind == "sym":
@@ -196,7 +202,7 @@ def run_property(prop, tier="quick", seed=0, level="proof", only=None, jobs=None
             row.update(paths=r.get("paths"), completed=r.get("paths_completed"))
             if r.get("budget_hit"):
                 undecided.append(dict(task=t.name, reason="exploration budget exhausted"))
-            if not r.get("crashed") and not r.get("errors"):
+            if not r.get("crashed") and not r.get("errors") and not r.get("inapplicable"):
                 base = t.name.split("#")[0]
                 group_completed = sum(by_name[x.name].get("paths_completed", 0) for x in tasks
                                       if x.name.split("#")[0] == base and x.name in by_name)
@@ -322,7 +328,7 @@ def run_property(prop, tier="quick", seed=0, level="proof", only=None, jobs=None
         undecided=undecided, canary_refuted=(canary_ok if canary_seen else None),
         bounded_legs=bounded_legs,
         known_findings=[dict(what=k.get("what"), task=t, clause=c) for k, t, c, _ in known_hits],
-        checker_errors=errors,
+        checker_errors=errors, inapplicable_tasks=inapplicable,
         violated=[f"{v['task']}::{v['clause']}" for v in violations],
     )
     if bounded_legs:
